@@ -88,6 +88,9 @@ struct StrictShared {
     fail_inst: Option<u32>,
     /// pending polls before readiness, 2 bits per instance (mod 8)
     pend_mask: u16,
+    /// after a call an instance stays not ready for this many virtual ms (a backend that needs
+    /// time before it can take the next request)
+    cool_ms: u64,
 }
 
 /// Contract-checking service: `ready` is set by a successful poll_ready, consumed by call, and
@@ -97,6 +100,8 @@ pub struct Strict {
     inst: u32,
     ready: bool,
     polls: u32,
+    /// while set and not elapsed this instance reports Pending (woken by the timer, no busy-wake)
+    cooling: Option<std::sync::Mutex<std::pin::Pin<Box<tokio::time::Sleep>>>>,
 }
 
 impl Clone for Strict {
@@ -106,22 +111,25 @@ impl Clone for Strict {
             inst: self.sh.next_inst.fetch_add(1, Ordering::SeqCst),
             ready: false,
             polls: 0,
+            cooling: None,
         }
     }
 }
 
 impl Strict {
-    fn new(inner: Scripted, fail_inst: Option<u32>, pend_mask: u16) -> Self {
+    fn new(inner: Scripted, fail_inst: Option<u32>, pend_mask: u16, cool_ms: u64) -> Self {
         Strict {
             sh: Arc::new(StrictShared {
                 inner,
                 next_inst: AtomicU32::new(1),
                 fail_inst,
                 pend_mask,
+                cool_ms,
             }),
             inst: 0,
             ready: false,
             polls: 0,
+            cooling: None,
         }
     }
 }
@@ -134,6 +142,14 @@ impl Service<Req> for Strict {
     fn poll_ready(&mut self, cx: &mut Context<'_>) -> Poll<Result<(), SErr>> {
         if self.ready {
             return Poll::Ready(Ok(()));
+        }
+        if let Some(c) = &self.cooling {
+            let mut sl = c.lock().unwrap();
+            if std::future::Future::poll(sl.as_mut(), cx).is_pending() {
+                return Poll::Pending;
+            }
+            drop(sl);
+            self.cooling = None;
         }
         let need = ((self.sh.pend_mask >> (2 * (self.inst % 8))) & 3) as u32 % 3;
         if self.polls < need {
@@ -167,6 +183,12 @@ impl Service<Req> for Strict {
             );
         }
         self.ready = false;
+        if self.sh.cool_ms > 0 {
+            self.sh.inner.shared.log.note("strict_cooling", self.inst as i64, self.sh.cool_ms as i64);
+            self.cooling = Some(std::sync::Mutex::new(Box::pin(tokio::time::sleep(
+                Duration::from_millis(self.sh.cool_ms),
+            ))));
+        }
         let (serial, step) = self.sh.inner.enter(&req);
         run_step(self.sh.inner.shared.clone(), serial, req, step)
     }
@@ -509,6 +531,9 @@ pub enum C20Case {
         inner: u8,
         pend_mask: u16,
         fail_inst: Option<u8>,
+        /// after each call the strict instance is not ready for this many ms
+        #[serde(default)]
+        cool_ms: u8,
         /// per request: (instance 0..3, gap ms, first attempt fails with the layer's trigger code, latency)
         requests: Vec<(u8, u8, bool, u8)>,
     },
@@ -543,13 +568,15 @@ fn case_strategy(_tier: Tier) -> BoxedStrategy<C20Case> {
         0u8..3,
         prop_oneof![1 => Just(0u16), 1 => any::<u16>()],
         prop_oneof![3 => Just(None), 1 => (0u8..8).prop_map(Some)],
+        prop_oneof![2 => Just(0u8), 1 => 1u8..=8],
         prop::collection::vec((0u8..3, 0u8..=5, any::<bool>(), prop_oneof![Just(0u8), Just(10u8), 0u8..=12]), 1..=6),
     )
-        .prop_map(|(layer, inner, pend_mask, fail_inst, requests)| C20Case::Readiness {
+        .prop_map(|(layer, inner, pend_mask, fail_inst, cool_ms, requests)| C20Case::Readiness {
             layer,
             inner,
             pend_mask,
             fail_inst,
+            cool_ms,
             requests,
         });
     let listeners = (
@@ -681,6 +708,7 @@ async fn readiness(
     inner_kind: u8,
     pend_mask: u16,
     fail_inst: Option<u8>,
+    cool_ms: u8,
     requests: &[(u8, u8, bool, u8)],
 ) -> (Vec<String>, Vec<Ev>, bool) {
     let mut v = vec![];
@@ -711,7 +739,7 @@ async fn readiness(
             }
         }
     });
-    let strict = Strict::new(scripted.clone(), fail_inst.map(|f| f as u32), pend_mask);
+    let strict = Strict::new(scripted.clone(), fail_inst.map(|f| f as u32), pend_mask, cool_ms as u64);
     let base: Boxed = match inner_kind {
         0 => base_of(strict),
         1 => {
@@ -1050,6 +1078,7 @@ pub fn run_case(case: &C20Case) -> Report {
             inner,
             pend_mask,
             fail_inst,
+            cool_ms,
             requests,
         } => {
             let (v, log, nontrivial) = sim::run_case(readiness(
@@ -1057,6 +1086,7 @@ pub fn run_case(case: &C20Case) -> Report {
                 *inner,
                 *pend_mask,
                 *fail_inst,
+                *cool_ms,
                 requests,
             ));
             for m in v {
@@ -1069,6 +1099,9 @@ pub fn run_case(case: &C20Case) -> Report {
             }
             if log.iter().any(|e| matches!(e, Ev::Note { kind: "strict_pending", .. })) {
                 r.class("inner_readiness_pending");
+            }
+            if log.iter().any(|e| matches!(e, Ev::Note { kind: "strict_cooling", .. })) {
+                r.class("inner_not_ready_for_some_ms_after_a_call");
             }
             r.nontrivial = nontrivial;
             if nontrivial {
